@@ -1,6 +1,10 @@
 """Which rules exist, which properties are claimed, their floors and evidence texts."""
 
-RULE_MODULES = ['descent', 'null', 'live', 'gate', 'alloc', 'immobile', 'reset', 'pool', 'stale', 'layer', 'twin', 'listsearch', 'steps', 'segflow', 'unchecked', 'panicsite', 'links', 'entity', 'inorder', 'progress', 'sizing']
+RULE_MODULES = ['descent', 'null', 'live', 'gate', 'immobile', 'reset', 'pool', 'stale', 'layer', 'twin', 'listsearch', 'steps', 'segflow', 'unchecked', 'panicsite', 'links', 'alloc', 'entity', 'inorder', 'progress', 'sizing', 'bypass']   # alloc after pool and links: it reads their verdicts
+
+# rule ids produced by modules that host more than one rule (used to attribute an internal error of a module)
+MODULE_RULES = {'steps': ['ENDSENT', 'NEIGHBOUR', 'HANDLE'], 'links': ['LINKPAIR', 'NILSTATE', 'COLOR', 'CLIMB', 'FRESH', 'DROP', 'ROOTTEST'],
+                'pool': ['POOL', 'PROVENANCE']}
 
 # rules whose instance set legitimately differs between debug and release-like MIR
 CONFIG_DEPENDENT_RULES = {'PANICSITE'}
@@ -29,9 +33,9 @@ expired nodes are removed and only live ones returned by the gates [LIVE]; every
 value returned comes from a node obtained through an expiry gate called with the operation's own time, with no state
 change in between [GATE]; no index computed before a lazy removal is used after it, except the parent anchor whose
 links are re-read [STALE]. The behaviour as a whole (all histories) is NOT decided; the search-tree invariant (C02) is
-assumed.""",
+assumed. Every path from the entry of a searching operation to a return passes its search construct (descent loop / binary search), or returns because the collection is empty, or on a comparison of the probe with the first / last element (list) or the root entry with an empty far subtree (tree) that is evaluated against the role's semantics: no answer is given in front of the search [BYPASS].""",
      ["C02: the tree is a valid search tree after every completed removal"],
-     {'DESCENT': 4, 'LIVE': 4, 'GATE': 7, 'STALE': 20})
+     {'DESCENT': 4, 'LIVE': 4, 'GATE': 7, 'STALE': 20, 'BYPASS': 4})
 
 prop('C03', """
 Static analysis (MIR/SSA). Decided clauses: insert computes the layout's place mask of (range.min, range.max) in that
@@ -56,9 +60,9 @@ the payload into the arena and delete runs the removal on exactly the index its 
 found one; no &mut to a stored entity escapes except through value_by_index_mut; is_empty is
 root == EMPTY_REF and root is written only by the constructor, the root insert, replace_parents_child, the removal and
 clear [ENTITY, POOL]; clear returns every slot and only the pool's recognised operations touch its vectors [POOL]; a
-recycled slot enters the tree with empty child links, so a removed entry's subtree cannot come back [FRESH].""",
+recycled slot enters the tree with empty child links, so a removed entry's subtree cannot come back [FRESH]. Every path from the entry of a searching operation to a return passes its search construct (descent loop / binary search), or returns because the collection is empty, or on a comparison of the probe with the first / last element (list) or the root entry with an empty far subtree (tree) that is evaluated against the role's semantics: no answer is given in front of the search [BYPASS].""",
      ["C02"],
-     {'DESCENT': 3, 'NULL': 40, 'ENTITY': 5, 'POOL': 2, 'FRESH': 2})
+     {'DESCENT': 3, 'NULL': 40, 'ENTITY': 5, 'POOL': 2, 'FRESH': 2, 'BYPASS': 3})
 
 prop('C05', """
 Static analysis (MIR/SSA). Decided clauses: lookup, the lookup inside delete, and the insert descent of SetTree
@@ -68,18 +72,18 @@ payload write is a whole-value assignment: insertion stores its argument into th
 the removed slot with the whole value of exactly one other slot, which is the slot it releases, so payloads are never
 mixed between keys [ENTITY, POOL]; is_empty is root == EMPTY_REF with a closed set of root writers [ENTITY]; clear
 returns every slot and only the pool's recognised operations touch its vectors [POOL]; a recycled slot enters the tree
-with empty child links, so a removed value's subtree cannot come back [FRESH].""",
+with empty child links, so a removed value's subtree cannot come back [FRESH]. Every path from the entry of a searching operation to a return passes its search construct (descent loop / binary search), or returns because the collection is empty, or on a comparison of the probe with the first / last element (list) or the root entry with an empty far subtree (tree) that is evaluated against the role's semantics: no answer is given in front of the search [BYPASS].""",
      ["C02"],
-     {'DESCENT': 3, 'NULL': 40, 'ENTITY': 5, 'POOL': 2, 'FRESH': 2})
+     {'DESCENT': 3, 'NULL': 40, 'ENTITY': 5, 'POOL': 2, 'FRESH': 2, 'BYPASS': 3})
 
 prop('C06', """
 Static analysis (MIR/SSA). Decided clause (complete for the loop, given the search-tree invariant): the exact-lookup
 descent of KeyExpTree continues right when stored<probe, left when stored>probe, returns the current value on
 equality, starts at the (gated) root and returns None at an empty link [DESCENT]; liveness is expiration > time at
 every test [LIVE]; only gated nodes are compared or returned [GATE]; a recycled slot enters the tree with empty child
-links, so the lookup cannot wander into a removed entry's former subtree [FRESH].""",
+links, so the lookup cannot wander into a removed entry's former subtree [FRESH]. Every path from the entry of a searching operation to a return passes its search construct (descent loop / binary search), or returns because the collection is empty, or on a comparison of the probe with the first / last element (list) or the root entry with an empty far subtree (tree) that is evaluated against the role's semantics: no answer is given in front of the search [BYPASS].""",
      ["C02"],
-     {'DESCENT': 2, 'LIVE': 4, 'GATE': 7, 'FRESH': 2})
+     {'DESCENT': 2, 'LIVE': 4, 'GATE': 7, 'FRESH': 2, 'BYPASS': 2})
 
 prop('C07', """
 Static analysis (MIR/SSA). Decided clauses: the export emits a node's value only on the keep side of the liveness
@@ -98,9 +102,9 @@ Static analysis (MIR/SSA). Decided clause: first_index_less and first_index_less
 PRED_LE table (record+right on stored<probe, return current on equality, left on stored>probe, EMPTY_REF initially)
 and therefore agree with each other [DESCENT]; value_by_index / value_by_index_mut designate the value of the slot
 (position) given by the handle itself and delete_by_index applies the removal (Vec::remove for the lists) to the handle
-itself, in all four map/set collections [HANDLE].""",
+itself, in all four map/set collections [HANDLE]. Every path from the entry of a searching operation to a return passes its search construct (descent loop / binary search), or returns because the collection is empty, or on a comparison of the probe with the first / last element (list) or the root entry with an empty far subtree (tree) that is evaluated against the role's semantics: no answer is given in front of the search [BYPASS].""",
      ["C02"],
-     {'DESCENT': 6, 'HANDLE': 12})
+     {'DESCENT': 6, 'HANDLE': 12, 'BYPASS': 6})
 
 prop('C09', """
 Static analysis (MIR/SSA nullness dataflow). Decided clause: in SetTree::index_after / index_before (and everything
@@ -145,9 +149,9 @@ after retain, written nowhere else) [GATE]; all 15 binary searches of the three 
 orientation (element relative to probe) and a post-processing that, evaluated symbolically over Ok(0)/Ok(i)/Err(0)/
 Err(i), equals the EXACT / PRED_LE / PRED_LT / INSERT result table of the reference semantics [LISTSEARCH]; the set
 list's neighbour steps return position +-1 inside the sequence and EMPTY_REF exactly at the last / first position
-[ENDSENT]; handles are positions passed through unchanged to get_unchecked / Vec::remove [HANDLE].""",
+[ENDSENT]; handles are positions passed through unchanged to get_unchecked / Vec::remove [HANDLE]. Every path from the entry of a searching operation to a return passes its search construct (descent loop / binary search), or returns because the collection is empty, or on a comparison of the probe with the first / last element (list) or the root entry with an empty far subtree (tree) that is evaluated against the role's semantics: no answer is given in front of the search [BYPASS].""",
      ["binary_search_by* / retain contracts of std"],
-     {'LIVE': 2, 'GATE': 8, 'LISTSEARCH': 30, 'ENDSENT': 4, 'HANDLE': 6})
+     {'LIVE': 2, 'GATE': 8, 'LISTSEARCH': 30, 'ENDSENT': 4, 'HANDLE': 6, 'BYPASS': 15})
 
 prop('C16', """
 Static analysis (MIR/SSA). Decided clauses: on the expired side of the expiry test (expiration < time) the scanned copy
